@@ -63,6 +63,18 @@ func run(c *vf.Ctx) {
 				}
 			}
 		}
+		{
+			// transaction combinatorics (first: small): one setup block, then every ordered pair (thorough: triple) of
+			// actions merged into ONE transaction (reorg round trip after every accepted block as above)
+			mm := *m
+			mm.Name, mm.Menu, mm.D, mm.K, mm.R = "merged", chain.MergedMenu, 2, 1, 0
+			if !c.Quick() {
+				mm.Menu = chain.MergedMenu3
+			}
+			xm := chain.NewExplorer(c, &mm, "C06")
+			xm.Run()
+			xm.Report(n + "/merged/")
+		}
 		x := chain.NewExplorer(c, m, "C06")
 		x.Run()
 		x.Report(n + "/")
